@@ -401,11 +401,21 @@ func (h kvHandler) handleKvBatchRollback(req *kvrpcpb.BatchRollbackRequest) *kvr
 func (h kvHandler) handleKvScanLock(req *kvrpcpb.ScanLockRequest) *kvrpcpb.ScanLockResponse {
 	startKey := MvccKey(h.startKey).Raw()
 	endKey := MvccKey(h.endKey).Raw()
+	// Scan the requested range within the region, up to the requested number of locks.
+	if len(req.StartKey) > 0 && bytes.Compare(req.StartKey, startKey) > 0 {
+		startKey = req.StartKey
+	}
+	if len(req.EndKey) > 0 && (len(endKey) == 0 || bytes.Compare(req.EndKey, endKey) < 0) {
+		endKey = req.EndKey
+	}
 	locks, err := h.mvccStore.ScanLock(startKey, endKey, req.GetMaxVersion())
 	if err != nil {
 		return &kvrpcpb.ScanLockResponse{
 			Error: convertToKeyError(err),
 		}
+	}
+	if limit := int(req.GetLimit()); limit > 0 && len(locks) > limit {
+		locks = locks[:limit]
 	}
 	return &kvrpcpb.ScanLockResponse{
 		Locks: locks,
